@@ -145,7 +145,7 @@ U4 = universe("U4", 4, [
     ("(g (p 1 2))", "(g (f 1 2))"),
     ("(g (g (p 1 2)))", F12),      # a small class merged into a bigger one whose datum improves
     ("(g (g (p 1 2)))", V1),
-], base=["(h (g (g (p 1 2))) (f 1 2))", "(h (g (g (p 1 2))) (v 1))", "(g (g (g (p 1 2))))", "(p 2 3)", "(lam 2 (p 2 1))", "(g (p 1 2))", "(g (g (p 1 2)))", "(h (p 1 2) (v 1))", "(h (v 2) (p 1 2))", "(lam 1 (p 1 2))", "(g (v 1))",
+], base=["(h (v 1) (v 2))", "(h (g (g (p 1 2))) (f 1 2))", "(h (g (g (p 1 2))) (v 1))", "(g (g (g (p 1 2))))", "(p 2 3)", "(lam 2 (p 2 1))", "(g (p 1 2))", "(g (g (p 1 2)))", "(h (p 1 2) (v 1))", "(h (v 2) (p 1 2))", "(lam 1 (p 1 2))", "(g (v 1))",
          "(h (p 1 2) (p 2 3))", "(h (p 2 1) (v 1))", "(h (p 1 2) (p 2 1))"],
    note="pre-inserted parents / grand-parents of the classes that get merged")
 
